@@ -1147,7 +1147,7 @@ fn main() {
         let fv: Vec<serde_json::Value> = fails.iter().take(30).map(|f| serde_json::json!({"properties": ["DEPCHECK"], "property": "DEPCHECK", "classification": format!("depcheck/{}", f.contract), "what": "an assumed contract of /verif/prelude disagrees with the real dependency", "step": 0, "expected": f.expected, "observed": f.observed, "known": null, "input": {"kind": "depcheck", "contract": f.contract, "input": f.input}})).collect();
         let j = serde_json::json!({
             "check": "depcheck", "tier": args.tier, "seed": 0,
-            "scope": "every assumed dependency contract of /verif/prelude (imbl::Vector methods incl. the panics, iterator adapters, SmallVec/ArrayVec, tokio broadcast send/recv/lag/close/subscribe, Arc/Weak counts, VecDeque front/back/get/partition_point, the std / imbl behaviour behind the rewrites R-OPTCOMB / R-FORMUT / R-ITER / R-RETAIN / R-FMLOOP) transcribed as an executable predicate and compared with the real crates on all vectors up to length 4 (thorough: 6), capacities {1,2,3,5}, 0..retained+3 messages",
+            "scope": "every assumed dependency contract of /verif/prelude (imbl::Vector methods incl. the panics, iterator adapters, SmallVec/ArrayVec, tokio broadcast send/recv/lag/close/subscribe, Arc/Weak counts, VecDeque front/back/get/partition_point, the std / imbl behaviour behind the rewrites R-OPTCOMB / R-FORMUT / R-ITER / R-RETAIN / R-FMLOOP / R-FOREACH / R-FOLD, imbl binary_search_by / sort_by / last and Iterator::position on all key sequences with ties up to length 4 (thorough: 5)) transcribed as an executable predicate and compared with the real crates on all vectors up to length 4 (thorough: 6), capacities {1,2,3,5}, 0..retained+3 messages",
             "evaluations": evals, "distinct_nontrivial": contracts,
             "rule": "distinct non-trivial cases = distinct prelude contracts exercised",
             "exhaustive": true, "samples": [], "failures": fv, "elapsed_s": t0.elapsed().as_secs_f64(),
